@@ -54,7 +54,7 @@ thread_local! {
 /// The same demand on the shipped binary: the game goes in as `position fen <root> moves ...`, so the
 /// history that the UCI layer keeps for the given moves is what the search sees. No line of the
 /// following shallow search may report a negative score when `drawing` is not empty.
-fn binary_sees_the_draw(root: &str, ops: &[String], depth: u8, drawing: &[String], at: &str, st: &mut Stats) -> Result<(), Fail> {
+fn binary_sees_the_draw(root: &str, ops: &[String], depth: u8, drawing: &[String], at: &str, prime_at: Option<usize>, st: &mut Stats) -> Result<(), Fail> {
     use std::time::Duration;
     if !super::ucilib::engine_available() {
         return Ok(());
@@ -72,9 +72,10 @@ fn binary_sees_the_draw(root: &str, ops: &[String], depth: u8, drawing: &[String
         let r = (|| -> Result<(), Fail> {
             let io = |x: String| Fail::new("binary:engine_died_or_silent", format!("after '{cmd}': {x}"));
             e.send("ucinewgame").map_err(io)?;
-            // every other case: the position two plies back is analysed first in the same session
-            if ops.len() >= 2 && ops.len() % 2 == 0 {
-                let pre = &ops[..ops.len() - 2];
+            // every other case: an earlier position of the game (the one that is about to be repeated, if
+            // any) is analysed first in the same session
+            if let Some(n) = prime_at.filter(|n| *n <= ops.len()) {
+                let pre = &ops[..n];
                 e.send(&if pre.is_empty() { format!("position fen {root}") } else { format!("position fen {root} moves {}", pre.join(" ")) }).map_err(io)?;
                 e.send(&format!("go depth {}", depth + 1)).map_err(io)?;
                 loop {
@@ -306,6 +307,8 @@ pub fn run(run: &mut Run) -> &'static str {
         }
         let mut drawing: Vec<String> = vec![];
         let mut far_back = false;
+        // game indices (number of moves played) at which a position stood that a drawing reply repeats
+        let mut repeated_at: Vec<usize> = vec![];
         for m in &legal {
             let child = cur.make(m);
             let mut stack = earlier.clone();
@@ -322,6 +325,7 @@ pub fn run(run: &mut Run) -> &'static str {
                         if stack.len() - j > 50 {
                             far_back = true;
                         }
+                        repeated_at.push(j);
                     }
                 }
             }
@@ -359,13 +363,18 @@ pub fn run(run: &mut Run) -> &'static str {
         // the same search on tables that an earlier analysis of this game has filled: the positions one
         // and two plies back are searched first (a ply deeper), on the same state and without a reset,
         // so that the table holds entries for the very positions that are repetitions now - written
-        // when they were not
+        // when they were not yet
         let mut primed = crate::engine::search::PersistentState::new(1);
+        // (the position that is about to be repeated, searched when it first stood on the board and was
+        // no repetition yet, and the position before it; else the position two plies back)
         let mut prefixes: Vec<usize> = vec![];
-        for back in [2usize, 1] {
-            if ops.len() >= back {
-                prefixes.push(ops.len() - back);
+        if let Some(j) = repeated_at.first() {
+            if *j >= 1 {
+                prefixes.push(*j - 1);
             }
+            prefixes.push(*j);
+        } else if ops.len() >= 2 {
+            prefixes.push(ops.len() - 2);
         }
         for n in &prefixes {
             let pre = SearchSpec { fen: root.clone(), moves: ops[..*n].to_vec(), limit: Limit::Depth(d + 1) };
@@ -388,7 +397,7 @@ pub fn run(run: &mut Run) -> &'static str {
                 }
             }
         }
-        binary_sees_the_draw(&root, &ops, d, &drawing, &cur.to_fen(), st).map_err(|f| f.explicit(ex()))
+        binary_sees_the_draw(&root, &ops, d, &drawing, &cur.to_fen(), if ops.len() % 2 == 0 { repeated_at.first().copied().or(ops.len().checked_sub(2)) } else { None }, st).map_err(|f| f.explicit(ex()))
     });
     // the same oracle on constructed games whose only repetition lies far back: the two kings walk
     // closed tours of coprime lengths (3..8 squares) in opposite corners, so the whole position first
